@@ -4,6 +4,7 @@ package jpspec
 
 import (
 	"fmt"
+	"math"
 	"math/rand"
 	"reflect"
 	"regexp"
@@ -448,4 +449,27 @@ func (g *Gen) Path(maxLen int, kinds []string, allowTrailingDescent bool) jpref.
 		p = append(p, f)
 	}
 	return p
+}
+
+// ExtremeInts are index, bound and step magnitudes at and near the limits of the int types.
+var ExtremeInts = []int{math.MaxInt64, math.MinInt64, math.MaxInt64 - 1, math.MinInt64 + 1, 1 << 62, -(1 << 62), math.MaxInt32, math.MinInt32, math.MaxInt32 + 1}
+
+// ExtremeSlices lists slice fragments (1-3 members) in which at least one of start, end and step is one of
+// ExtremeInts and the others are small values.
+func ExtremeSlices() [][]int {
+	small := []int{0, 1, -1, 2}
+	var out [][]int
+	for _, x := range ExtremeInts {
+		out = append(out, []int{x})
+		for _, a := range small {
+			out = append(out, []int{x, a}, []int{a, x})
+			for _, b := range []int{1, -1, 2} {
+				out = append(out, []int{x, a, b}, []int{a, x, b}, []int{a, b + 1, x})
+			}
+		}
+		for _, y := range ExtremeInts {
+			out = append(out, []int{x, y}, []int{x, y, 1}, []int{x, y, -1}, []int{0, x, y}, []int{-1, x, y}, []int{x, 2, y})
+		}
+	}
+	return out
 }
